@@ -168,6 +168,24 @@ CLAIMS = {
              "forecasters) are covered by the bounded native tier only",
         technique="contract-based deductive verification: AST->VC generation (pyvc) + z3/cvc5; raises-iff clauses per type case",
         design="6/C20"),
+    "C12": dict(
+        category="proof",
+        text="Frame part of the property, proved with alias tracking (ghost set of written objects; a shallow copy shares its buffer "
+             "with the original): apply-type methods write neither the caller's data nor the estimator -- _predict_fixed_cutoff, "
+             "NaiveForecaster._predict_last_window, PolynomialTrendForecaster._predict, _predict of pipeline / ensemble / multiplexer, "
+             "Deseasonalizer and OptionalPassthrough transform / inverse_transform, TabularToSeriesAdaptor, HampelFilter.transform, "
+             "Imputer.transform (9 rules x missing-value option), forest predict_proba / predict, column ensemble, BOSS ensemble, "
+             "BaseClassifier.predict / score, sliding-window and interval segmenters (data only: row transformers store per-instance "
+             "clones on self). Their results are functions of the arguments and the fitted state only (no n_jobs, no call history in any "
+             "postcondition), which gives repeatability and n_jobs-independence under the joblib ordering assumption; "
+             "EnsembleForecaster.fit collects member fits in member order.",
+        note="NOT decided by contracts (bounded tier only, 12k cases quick): thread schedules under a threaded backend, pickling round "
+             "trip, random_state reproducibility, repeat-call equality on every runnable estimator, fit not writing the caller's data; "
+             "assumed: joblib.Parallel returns results in submission order; _hampel_filter writes its argument in place; pandas "
+             "fillna / replace / interpolate / apply return new objects; predict(fh) of an optional-horizon forecaster overwrites the "
+             "stored horizon (known finding)",
+        technique="contract-based deductive verification: frame obligations with alias tracking (pyvc) + z3",
+        design="6/C12, 12.2"),
     "C14": dict(
         category="proof",
         text="The numeric kernels of the closed-form transformers are verified against their defining formula for all sizes: "
